@@ -116,6 +116,15 @@ CHECKS.update({
             "DESIGN.md section 4, C13"),
 })
 
+CHECKS.update({
+    "C17": ("Hypothesis-generated trees per hardware family against an independent completion model; idempotence and metamorphic patch relation",
+            "For 15 model/tag combinations covering every branch of the implicit tables: completion must equal the independent model, keep "
+            "every explicit line, be idempotent, and a default implied on both sides must add no diff entry and no command (metamorphic: "
+            "the patch with and without those lines). Exploration.",
+            "Trusted: completion model in vf/props/c17.py; pattern matching itself delegated to the compiled rule regexp (C07's subject).",
+            "DESIGN.md section 4, C17"),
+})
+
 NOT_YET = {}
 
 
